@@ -369,7 +369,7 @@ func TestVerifC39Render(t *testing.T) {
 	opRegisterEnv(t)
 	scheme := opScheme(t)
 	ctx := context.Background()
-	n := r.N(500, 8000)
+	n := r.N(400, 5000)
 	directed := opDirected()
 	for ci := 0; ci < n; ci++ {
 		rng := r.Rand(ci)
@@ -506,6 +506,7 @@ func TestVerifC39Publish(t *testing.T) {
 	r := verifkit.Start(t, "C39", "publish")
 	defer r.Finish("[full ClusterReconciler.Reconcile, then TopicReconciler.Reconcile, with an external-etcd spec against an embedded etcd; the metadata judged is the JSON read back from "+c39SnapshotKey+" after each; a scale-down-after-topic-removal probe is observation only (obs_*)] "+c39Rule, c39Assumptions...)
 	opRegisterEnv(t)
+	opScratchTmp(t)
 	endpoints := testutil.StartEmbeddedEtcd(t)
 	cli, err := clientv3.New(clientv3.Config{Endpoints: endpoints, DialTimeout: 5 * time.Second})
 	if err != nil {
@@ -514,7 +515,7 @@ func TestVerifC39Publish(t *testing.T) {
 	defer cli.Close()
 	scheme := opScheme(t)
 	ctx := context.Background()
-	n := r.N(80, 1200)
+	n := r.N(60, 800)
 	directed := opDirected()
 	for ci := 0; ci < n; ci++ {
 		rng := r.Rand(ci)
